@@ -399,7 +399,7 @@ MANIFEST_TEXT = {
         note='Trusted: rustc places the DST tail at the declared fixed offset (checked by Kani harnesses except for ElfSectionsTag, Kani ICE).',
     ),
     'C06': dict(
-        text='Proof: Verus verifies the verbatim multiboot2::Builder: each of the 22 setters against a full-frame postcondition (named slot = supplied tag, every other field unchanged; repeatable kinds appended in call order; add_custom_tag rejects non-custom types), and build() against: 8-aligned result, declared total size = exact byte length, payload = concatenation of the byte images of exactly the supplied tags in the documented order (loop invariants for modules / SMBIOS / custom tags), followed by an end tag (type 0, size 8) as the final 8 bytes. A dropped, duplicated or reordered push fails a named step assertion. Kani cannot compile this type (ICE on ElfSectionsTag), so there is no compiled-code cross-check.',
+        text='Proof: Verus verifies the verbatim multiboot2::Builder: each of the 22 setters against a full-frame postcondition (named slot = supplied tag, every other field unchanged; repeatable kinds appended in call order; add_custom_tag rejects non-custom types), and build() against: 8-aligned result, declared total size = exact byte length, payload = concatenation of the byte images of exactly the supplied tags in the documented order (loop invariants for modules / SMBIOS / custom tags), followed by an end tag (type 0, size 8) as the final 8 bytes. A dropped, duplicated or reordered push fails a named step assertion. Kani cannot compile this type (ICE on ElfSectionsTag), so the only cross-check on compiled code is the bounded native stand-in n_builder_roundtrip.',
         note='Assumes the contract of new_boxed (C16, checked by Kani for bounded inputs) and that references to tags held by the builder are well-formed (type-system guarantee, axiom_safe_ref_wf); VBEInfoTag is an opaque stub; the lemma that the built bytes satisfy the load acceptance condition is by inspection of the two contracts (C02 postcondition vs. this postcondition), not mechanised.',
     ),
     'C07': dict(
